@@ -104,7 +104,9 @@ def enc_val(v):
         return "T", "bool"
     if v is False:
         return "F", "bool"
-    if type(v) is int:
+    if isinstance(v, int) and type(v) is not bool:
+        # (int SUBCLASSES — http.HTTPStatus members, a plain `class MyInt(int)` — are integers: same token)
+        v = int(v)
         if abs(v) >= INT_STR_LIMIT:
             # decimal conversion is refused by CPython; build it from hex via divmod-free path
             return "i" + _big_dec(v), "int-over-4300-digits"
@@ -513,6 +515,18 @@ def int_sweep(tier):
             out.append(mk(tname, code=z))
             out.append(mk(tname, sqlstate=z))
             out.append(mk(tname, args=[z]))
+    # "every integer status maps as documented": also when the integer is an instance of an int SUBCLASS
+    # (http.HTTPStatus members are what HTTP client libraries put there)
+    import http as _http
+    for z in (401, 403, 400, 404, 409, 408, 429, 500, 503, 599, 200, 422):
+        vals = [MyInt(z)]
+        try:
+            vals.append(_http.HTTPStatus(z))
+        except ValueError:
+            pass
+        for v in vals:
+            for slot in ("status", "status_code", "code"):
+                out.append(mk("X", **{slot: v}))
     return out, len(zs)
 
 
@@ -525,7 +539,8 @@ class MyStr(str):
 
 
 class MyInt(int):
-    pass
+    def __repr__(self) -> str:          # shown in replays: the value is NOT a plain int
+        return f"MyInt({int(self)})  # class MyInt(int): pass"
 
 
 def deep_list(n):
